@@ -108,7 +108,18 @@ def check_rest(ctx, P, tx, rx, ms):
                 stores.append((b, i, simplify(ftb.rvalue(s["rv"]))))
         for b, c in call_sites(f, lambda c: callee_is(c, "increment_cycle_state")):
             marks[(b, None)] = "inc"
-        g = GuardAnalysis(f, P, marks=marks, iter_marks=("inc",))
+            # persistent (not per-iteration) mark on the branch taken when the iteration reported "pass complete"
+            dl = c["dest"]["l"]
+            t_ = c.get("target")
+            if t_ is not None:
+                sw = f.blocks[t_].term
+                if "switch" in sw and (sw["switch"].get("mv") or sw["switch"].get("cp") or {}).get("l") == dl and sw.get("sty") == "bool" \
+                        and sw["targets"] and int(sw["targets"][0][0]) == 0:
+                    bt = sw["otherwise"]
+                    marks[(bt, 0 if f.blocks[bt].stmts else None)] = "inc_true"
+        # current-state facts (mem_kill): a variant test of cycle_state made in an earlier turn of the slot loop must not survive
+        # the call that advances the cycle state, or the next turn's CycleCompleted arm would look unreachable
+        g = GuardAnalysis(f, P, marks=marks, iter_marks=("inc",), mem_kill=True, modsets=ms)
         short = f.name.split("::")[-1]
         ctx.anchor("stores to the events slot in DpMaster::" + short, len(stores), 3 if f is tx else 1)
         bad = []
@@ -139,7 +150,7 @@ def check_rest(ctx, P, tx, rx, ms):
                 elif cc == ("const", True):
                     ok = inc_true or no_slot
                 else:  # default (false)
-                    ok = not inc_true
+                    ok = not inc_true and g.count_of(fs, "inc_true") == {0}  # also not in an earlier turn of the slot loop
                     if g.count_of(fs, "inc") != {0} and not (inc and inc[0] == ("in", frozenset([False]))):
                         ok = False  # the iteration was advanced in this pass but its verdict was not consulted
                 ctx.ob("c.cycle", "cc|%s|%d" % (short, n_), ok,
@@ -180,6 +191,16 @@ def check_rest(ctx, P, tx, rx, ms):
             v = simplify(rtb.rvalue(s["rv"]))
             ok = v[0] == "agg" and M.mentions(v[3][1], M.t_call("dp::peripheral::Peripheral::receive_reply")) and M.mentions(v[3][0], M.t_call("increment_cycle_state"))
             ctx.ob("d.accounting", "reply-event-flow", ok, "the reply path must store (cycle_completed = iteration result, peripheral = event of Peripheral::receive_reply), found " + show(v)[:200], rx.loc(b, i))
+    # ---------------- f: the cycle position belongs to the cycle ------------------------------------
+    # a pass visits every peripheral once only if nothing but the slot iteration itself moves the cycle position: who writes it?
+    from analysis.query import mut_uses_of_field
+    w = sorted({u["fn"].name for u in mut_uses_of_field(P, CR, "cycle_state", "CycleState") if u["kind"] in ("assign", "calldest", "setdiscr", "refmut")
+                and not u["fn"].j.get("derived")})
+    allowed = {"dp::master::DpMaster::<'a>::new", "dp::master::DpMaster::<'a>::increment_cycle_state", TX, RX}
+    allowed |= {P.fn(CR, TX).name, P.fn(CR, RX).name}
+    ctx.ob("f.who", "writers-of-cycle-state", bool(w) and set(w) <= allowed,
+           "the DP cycle position (DpMasterState.cycle_state) is written outside the slot iteration (%s): peripherals can be visited twice or skipped "
+           "in one pass" % sorted(set(w) - allowed), "")
     # ---------------- e: life-cycle pairing -------------------------------------------------------
     check_lifecycle(ctx, P)
     for f in [f for f in P.crate_fns(CR) if f.module == "dp::peripheral" and f.kind == "assoc"
